@@ -21,6 +21,7 @@ From TskVerif Require Import C01.Theorems.
 From TskVerif Require Import C01.ReverseProofs.
 From TskVerif Require Import C01.SitesProofs.
 From TskVerif Require Import C01.MutEdgeProofs.
+From TskVerif Require Import C01.TotalProofs.
 From TskVerif Require Import C01.ReverseTop.
 From TskVerif Require Import C01.LevelProofs.
 From TskVerif Require Import C01.CoiterProofs.
@@ -390,3 +391,49 @@ Theorem coiterate_partition : forall L b1 b2,
     Forall row_ok rows /\ consecutive 0 rows /\
     map (fun row => nth 1 row 0) rows = umerge (S (S (length b1 + length b2))) b1 b2.
 Proof. exact coiterate_partition_lemma. Qed.
+
+(* (totality) On valid input, without sample lists and with tracked samples that are node ids,
+   the FULL model (all arrays, counts, roots; every checked array access, every fuel-bounded
+   loop) returns a tree for every k < num_trees: no OOB, no fuel exhaustion, no error.  Hence
+   sweep_parent_exact — and with it every theorem above of the form "if first(); next()^k returns
+   t then ..." — is unconditional for these options.  (With sample_lists=True totality of
+   tsk_tree_update_sample_lists is still tied by the correspondence only.) *)
+Theorem full_model_total : forall L ns es Ins Rem q,
+  valid_edgesb L ns es = true -> index_sorted es Ins Rem -> mk_tseq L ns es Ins Rem = Ok q ->
+  forall o, o_lists o = false -> (forall s, In s (o_tracked o) -> 0 <= s < zlen ns) ->
+  forall k, Z.of_nat k < q_ntrees q ->
+  exists t l r,
+    tree_at_index q o k = Ok t /\
+    get (q_bps q) (Z.of_nat k) = Ok l /\ get (q_bps q) (Z.of_nat k + 1) = Ok r /\
+    p_index (t_pos t) = Z.of_nat k /\ p_left (t_pos t) = l /\ p_right (t_pos t) = r /\ l < r /\
+    forall x, l <= x < r -> forall u, 0 <= u < zlen ns ->
+      get (t_parent t) u = Ok (parent_at es x u).
+Proof. exact full_model_total_lemma. Qed.
+
+(* (mutation.edge, all mutations) for sites sorted by position inside [0, L) and mutations sorted
+   by site (the table requirements), tsk_treeseq_init_trees assigns EVERY mutation, and
+   mutation j gets edge = the id of the edge row with child = its node that covers the position
+   of its site, or NULL if there is none. *)
+Theorem mutation_edge_all : forall L ns es Ins Rem q,
+  valid_edgesb L ns es = true -> index_sorted es Ins Rem -> mk_tseq L ns es Ins Rem = Ok q ->
+  forall positions muts steps Oend ids mes,
+  sorted_by spos (enum_from 0 positions) -> (forall p, In p positions -> 0 <= p < L) ->
+  sorted_by msite muts ->
+  (forall m, In m muts -> 0 <= fst m < zlen positions /\ 0 <= snd m < zlen ns) ->
+  sweep L (q_I q) (q_O q) = Ok (steps, Oend) ->
+  init_trees_sites steps (repeat NULL (length ns)) (enum_from 0 positions) muts = Ok (ids, mes) ->
+  Forall2 (fun m e => exists pos, get positions (fst m) = Ok pos /\ e = parent_at (es_id es) pos (snd m)) muts mes.
+Proof. exact mutation_edge_all_lemma. Qed.
+
+(* (reverse order) the k-th entry of the reverse edge diffs is tree num_trees - 1 - k: its
+   interval (L - s_right, L - s_left) is [bps[num_trees-1-k], bps[num_trees-k]), and there are
+   exactly num_trees entries. *)
+Theorem reverse_entry_is_tree : forall L ns es Ins Rem q,
+  valid_edgesb L ns es = true -> index_sorted es Ins Rem -> mk_tseq L ns es Ins Rem = Ok q ->
+  exists steps,
+    edge_diffs_reverse L (q_I q) (q_O q) false = Ok (map (rdiff L) steps) /\
+    zlen steps = q_ntrees q /\
+    forall k s, nth_error steps k = Some s ->
+      get (q_bps q) (q_ntrees q - 1 - Z.of_nat k) = Ok (L - s_right s) /\
+      get (q_bps q) (q_ntrees q - Z.of_nat k) = Ok (L - s_left s).
+Proof. exact reverse_intervals_lemma. Qed.
